@@ -43,6 +43,14 @@ type vAbsLog struct {
 	lastCommitArg                                    uint64
 	removedGTE                                       uint64 // smallest index ever passed to RemoveGTE (0 = none)
 	closed                                           bool
+
+	// back-removals and resets of the root, in order: a view taken before one of them must not read at or beyond its
+	// index afterwards (the bytes there were overwritten or unmapped)
+	cuts  []uint64
+	ncuts int // view: len(parent.cuts) when the view was taken
+
+	// fault injection: the getNFailAt-th GetN (through any view of this root) fails with an I/O error (0 = never)
+	getNFailAt, nGetN int
 }
 
 var vLogs = map[*log.Log]*vAbsLog{}
@@ -105,10 +113,26 @@ func vLogGet(l *log.Log, i uint64) ([]byte, error) {
 	// a view outlives compaction of its parent only as long as its segments are mapped; reading an index the
 	// parent has already removed is use-after-unmap in the real log: flag it.
 	if i <= r.prev {
+		vAssert(false, "log-view-never-reads-an-unmapped-segment")
 		panic("log: read of a removed (unmapped) segment through a stale view")
 	}
+	a.checkCuts(i)
 	k := vConcreteInt(int(i - r.base - 1))
 	return r.ents[k], nil
+}
+
+// checkCuts: a view must not read index i if the root was cut back to or below i (or reset) after the view was taken:
+// those bytes have been overwritten by other entries or unmapped.
+func (a *vAbsLog) checkCuts(i uint64) {
+	if a.parent == nil {
+		return
+	}
+	for _, c := range a.parent.cuts[a.ncuts:] {
+		if i >= c {
+			vAssert(false, "log-view-never-reads-entries-removed-or-rewritten-after-it-was-taken")
+			panic("log: read through a view of entries that were removed from the back (and possibly rewritten) after the view was taken")
+		}
+	}
 }
 
 func vLogGetN(l *log.Log, i uint64, n uint64) ([][]byte, error) {
@@ -121,7 +145,13 @@ func vLogGetN(l *log.Log, i uint64, n uint64) ([][]byte, error) {
 	}
 	r := a.root()
 	if i <= r.prev {
+		vAssert(false, "log-view-never-reads-an-unmapped-segment")
 		panic("log: read of a removed (unmapped) segment through a stale view")
+	}
+	a.checkCuts(i + n - 1)
+	r.nGetN++
+	if r.nGetN == r.getNFailAt {
+		return nil, vIOError{"log: read failed"}
 	}
 	var buffs [][]byte
 	nn := vConcreteInt(int(n))
@@ -219,6 +249,7 @@ func vLogRemoveGTE(l *log.Log, i uint64) error {
 	a := vAbs(l)
 	a.flushed = a.last()
 	a.nRemoveGTE++
+	a.cuts = append(a.cuts, i)
 	if a.removedGTE == 0 || i < a.removedGTE {
 		a.removedGTE = i
 	}
@@ -250,6 +281,7 @@ func vLogRemoveGTE(l *log.Log, i uint64) error {
 func vLogReset(l *log.Log, lastIndex uint64) error {
 	a := vAbs(l)
 	a.nReset++
+	a.cuts = append(a.cuts, 0)
 	vCrashPoint("log.reset.before")
 	// the real Reset unlinks every segment, then creates the new one: in between the directory holds no segment at
 	// all, which openSegments turns into an empty log at index 0 (crash-outcome set of DESIGN.md §3.6, checked at the
@@ -285,7 +317,7 @@ func vLogViewAt(l *log.Log, prevIndex, lastIndex uint64) *log.Log {
 		return nil
 	}
 	v := &log.Log{}
-	vLogs[v] = &vAbsLog{parent: a.root(), vprev: prevIndex, vlast: lastIndex}
+	vLogs[v] = &vAbsLog{parent: a.root(), vprev: prevIndex, vlast: lastIndex, ncuts: len(a.root().cuts)}
 	return v
 }
 
